@@ -14,29 +14,29 @@ pub mod verif_kani {
         state[((state[*i as usize] as u16 + state[*j as usize] as u16) % 256) as usize]
     }
 
-    /// C09 (bounded: calls of 0..=6 bytes; every state incl. non-permutations, every counter value):
+    /// C09 (bounded: calls of 0..=3 bytes; every state incl. non-permutations, every counter value):
     /// apply_keystream XORs with the textbook keystream and advances the state as the textbook PRGA does
     #[kani::proof]
-    #[kani::unwind(8)]
-    pub fn c09_apply_keystream_6() {
+    #[kani::unwind(5)]
+    pub fn c09_apply_keystream_3() {
         let state: [u8; 256] = kani::any();
         let i0: u8 = kani::any(); let j0: u8 = kani::any();
-        let data: [u8; 6] = kani::any();
-        let len: usize = kani::any(); kani::assume(len <= 6);
+        let data: [u8; 3] = kani::any();
+        let len: usize = kani::any(); kani::assume(len <= 3);
         let mut r = Rc4 { state, i: i0, j: j0 };
         let mut buf = data;
         r.apply_keystream(&mut buf[..len]);
         let (mut s, mut i, mut j) = (state, i0, j0);
         let mut ok = true;
         let mut n = 0;
-        while n < 6 {
+        while n < 3 {
             if n < len { let k = ref_prga(&mut s, &mut i, &mut j); ok &= buf[n] == data[n] ^ k; } else { ok &= buf[n] == data[n]; }
             n += 1;
         }
         ok &= r.i == i && r.j == j;
         let probe: u8 = kani::any();
         ok &= r.state[probe as usize] == s[probe as usize];
-        kani::cover!(len == 6 && i0 == 255);
+        kani::cover!(len == 3 && i0 == 255);
         assert!(ok, "C09 apply_keystream = XOR with textbook RC4 keystream, state advanced accordingly");
     }
 }
